@@ -18,10 +18,22 @@ package udpsrv
 //   - idle: WithInactivityMonitor (the callback closes the connection, as the default one does); the
 //     peer is served, stays silent for longer than the inactivity period and speaks again before any
 //     housekeeping tick: the datagram that finds the expired entry is served by its replacement -
-//     answered once, handled once, and announced as a new connection.
+//     answered once, handled once, and announced as a new connection;
+//   - retx: the server is configured with WithTransmission(1, 60 ms, R), R in 0..2; a request the
+//     server application issues on the peer's server-side connection and the peer never acknowledges is
+//     on the wire exactly 1+R times (the configured value, also when it is 0), copy k no earlier than
+//     k x 60 ms after the first;
+//   - alias: a wildcard-bound listener; the peer's confirmable request is handled, the application
+//     then calls Server.NewConn for that peer, the peer retransmits: the copy is answered from the
+//     de-duplication state (not handled again);
+//   - monclose: a request monitor closes the connection of a datagram while the datagram is being taken
+//     in: the datagram reaches the handler at most once;
+//   - reconn: wildcard-bound listener, the server application talks first: NewConn, an exchange the peer
+//     answers at once, Close, NewConn again, another exchange: each is on the wire once and succeeds.
 
 import (
 	"bytes"
+	"context"
 	"encoding/json"
 	"fmt"
 	"net"
@@ -45,7 +57,7 @@ import (
 )
 
 type Scenario struct {
-	Mode         string `json:"mode"` // twolocal | closed | keepalive | idle
+	Mode         string `json:"mode"` // twolocal | closed | keepalive | idle | retx | alias | reconn | monclose
 	N            int    `json:"n"`    // twolocal: message pairs; closed: close/again rounds
 	SameMID      bool   `json:"sameMID"`
 	Con          bool   `json:"con"`
@@ -106,6 +118,17 @@ func execOnce(sc Scenario) *evid.Failure {
 			mu.Unlock()
 			_ = cc.Close()
 		}))
+	}
+	if sc.Mode == "retx" {
+		opts[len(opts)-1] = options.WithTransmission(1, 60*time.Millisecond, uint32(sc.MaxRetries))
+	}
+	if sc.Mode == "monclose" {
+		opts = append(opts, options.WithRequestMonitor(udpClient.RequestMonitorFunc(func(cc *udpClient.Conn, rq *pool.Message) (bool, error) {
+			if b, _ := rq.ReadBody(); bytes.HasPrefix(b, []byte("mclose")) {
+				_ = cc.Close() // e.g. an access-control decision taken when the datagram is looked at
+			}
+			return false, nil
+		})))
 	}
 	if sc.Mode == "idle" {
 		opts = append(opts, options.WithInactivityMonitor(period, func(cc *udpClient.Conn) { _ = cc.Close() }))
@@ -284,6 +307,171 @@ func execOnce(sc Scenario) *evid.Failure {
 				return evid.Failf("udpserver/expired-entry-not-replaced", sc, "after request %d (each after more than one inactivity period of silence) the server had announced %d connections, want %d: the datagram that finds an expired entry belongs to its replacement", k+1, nconn, k+1)
 			}
 		}
+	case "monclose":
+		for k := 0; k < sc.N; k++ {
+			_, _ = raw.WriteToUDP(peer.Datagram(request(900+k, byte(k), fmt.Sprintf("mclose%d", k))), dst1)
+			_ = read(25 * time.Millisecond)
+		}
+		time.Sleep(50 * time.Millisecond)
+		mu.Lock()
+		count := map[string]int{}
+		for _, h := range handled {
+			count[h]++
+		}
+		mu.Unlock()
+		for k := 0; k < sc.N; k++ {
+			if b := fmt.Sprintf("mclose%d", k); count[b] > 1 {
+				return evid.Failf("udpserver/datagram-handled-twice", sc, "datagram %q (its connection was closed by the request monitor while the datagram was being taken in) reached the handler %d times", b, count[b])
+			}
+		}
+	case "retx":
+		_, _ = raw.WriteToUDP(peer.Datagram(request(700, 1, "hello")), dst1)
+		_ = read(60 * time.Millisecond)
+		mu.Lock()
+		var cc *udpClient.Conn
+		if len(conns) > 0 {
+			cc = conns[0].cc
+		}
+		mu.Unlock()
+		if cc == nil {
+			return evid.Failf("udpserver/no-connection", sc, "the server reported no connection for the peer's first datagram")
+		}
+		reqDone := make(chan error, 1)
+		go func() {
+			ctx, cancel := context.WithTimeout(context.Background(), time.Second)
+			defer cancel()
+			_, err := cc.Get(ctx, "/from-server")
+			reqDone <- err
+		}()
+		var copies []time.Time
+		var first []byte
+		deadline := time.Now().Add(700 * time.Millisecond)
+		buf := make([]byte, 2048)
+		for time.Now().Before(deadline) {
+			tick()
+			_ = raw.SetReadDeadline(time.Now().Add(10 * time.Millisecond))
+			n, _, err := raw.ReadFromUDP(buf)
+			if err != nil {
+				continue
+			}
+			if m, ok := peer.ParseDatagram(buf[:n]); ok && m.Type == peer.CON && m.Code == 1 {
+				if first == nil {
+					first = append([]byte(nil), buf[:n]...)
+				} else if !bytes.Equal(first, buf[:n]) {
+					return evid.Failf("udpserver/retx-copies-differ", sc, "transmission %d of the server's request differs from the first", len(copies))
+				}
+				copies = append(copies, time.Now())
+			}
+		}
+		if len(copies) != 1+sc.MaxRetries {
+			return evid.Failf("udpserver/retx-count", sc, "a request issued on a connection of a server configured with MAX_RETRANSMIT %d and never acknowledged was on the wire %d times in 700 ms (ACK_TIMEOUT 60 ms), want %d", sc.MaxRetries, len(copies), 1+sc.MaxRetries)
+		}
+		for k := 1; k < len(copies); k++ {
+			if d := copies[k].Sub(copies[0]); d < time.Duration(k)*60*time.Millisecond-5*time.Millisecond {
+				return evid.Failf("udpserver/retx-too-early", sc, "transmission %d of the server's request %v after the first, ACK_TIMEOUT is 60 ms", k, d)
+			}
+		}
+		select {
+		case err := <-reqDone:
+			if err == nil {
+				return evid.Failf("udpserver/retx-success-without-answer", sc, "the request succeeded although the peer never answered")
+			}
+		case <-time.After(2 * time.Second):
+			return evid.Failf("udpserver/retx-call-hangs", sc, "the request has not returned 1 s after its deadline")
+		}
+	case "alias":
+		// the listener of this engine is bound to the wildcard address
+		rq := request(800, 1, "aliasA")
+		rq.Type = peer.CON
+		_, _ = raw.WriteToUDP(peer.Datagram(rq), dst1)
+		first := read(80 * time.Millisecond)
+		peerAddr := raw.LocalAddr().(*net.UDPAddr)
+		ccN, err := s.NewConn(peerAddr)
+		if err != nil {
+			return nil
+		}
+		_, _ = raw.WriteToUDP(peer.Datagram(rq), dst1) // the retransmission
+		second := read(80 * time.Millisecond)
+		mu.Lock()
+		cnt := 0
+		for _, h := range handled {
+			if h == "aliasA" {
+				cnt++
+			}
+		}
+		mu.Unlock()
+		if cnt != 1 {
+			return evid.Failf("udpserver/alias-handler-re-executed", sc, "a confirmable request and its retransmission (the application called Server.NewConn for the peer in between) reached the handler %d times, want once", cnt)
+		}
+		if len(first) != 1 || len(second) != 1 || !bytes.Equal(peer.Datagram(first[0].m), peer.Datagram(second[0].m)) {
+			return evid.Failf("udpserver/alias-replies-differ", sc, "the request was answered with %d datagram(s), its retransmission with %d; want one identical reply each", len(first), len(second))
+		}
+		_ = ccN
+	case "reconn":
+		// the server application talks first: NewConn, an exchange, Close, NewConn again, an exchange
+		peerAddr := raw.LocalAddr().(*net.UDPAddr)
+		exchange := func(cc *udpClient.Conn, label string) *evid.Failure {
+			reqDone := make(chan error, 1)
+			go func() {
+				ctx, cancel := context.WithTimeout(context.Background(), 600*time.Millisecond)
+				defer cancel()
+				_, err := cc.Get(ctx, "/from-server")
+				reqDone <- err
+			}()
+			copies := 0
+			deadline := time.Now().Add(700 * time.Millisecond)
+			buf := make([]byte, 2048)
+			var got error
+			returned := false
+			for time.Now().Before(deadline) && !returned {
+				tick()
+				_ = raw.SetReadDeadline(time.Now().Add(10 * time.Millisecond))
+				if n, from, err := raw.ReadFromUDP(buf); err == nil {
+					if m, ok := peer.ParseDatagram(buf[:n]); ok && m.Type == peer.CON && m.Code == 1 {
+						copies++
+						_, _ = raw.WriteToUDP(peer.Datagram(refcodec.Msg{Type: peer.ACK, MID: m.MID, Token: m.Token, Code: 69, Payload: []byte("ok")}), from)
+					}
+				}
+				select {
+				case got = <-reqDone:
+					returned = true
+				default:
+				}
+			}
+			if !returned {
+				select {
+				case got = <-reqDone:
+				case <-time.After(time.Second):
+					return evid.Failf("udpserver/reconn-call-hangs", sc, "the request on the %s connection has not returned", label)
+				}
+			}
+			if got != nil || copies != 1 {
+				return evid.Failf("udpserver/reconn-answered-request-failed", sc, "the peer acknowledged and answered every copy at once, yet the request on the %s connection returned %v after %d transmissions (want success after one)", label, got, copies)
+			}
+			return nil
+		}
+		cc1, err := s.NewConn(peerAddr)
+		if err != nil {
+			return nil
+		}
+		if f := exchange(cc1, "first (Server.NewConn)"); f != nil {
+			return f
+		}
+		for k := 0; k < sc.N; k++ {
+			_ = cc1.Close()
+			time.Sleep(20 * time.Millisecond)
+			cc2, err := s.NewConn(peerAddr)
+			if err != nil {
+				return nil
+			}
+			if cc2.Context().Err() != nil {
+				return evid.Failf("udpserver/reconn-newconn-returned-closed", sc, "Server.NewConn returned a closed connection after the previous one for that peer was closed")
+			}
+			if f := exchange(cc2, fmt.Sprintf("connection obtained from NewConn after close number %d", k+1)); f != nil {
+				return f
+			}
+			cc1 = cc2
+		}
 	case "keepalive":
 		if sc.NewConnFirst {
 			if _, err := s.NewConn(raw.LocalAddr().(*net.UDPAddr)); err != nil {
@@ -402,6 +590,12 @@ func Gen(modes []string) func(t *rapid.T) Scenario {
 			sc.N = rapid.IntRange(1, 3).Draw(t, "n")
 		case "idle":
 			sc.N = rapid.IntRange(2, 4).Draw(t, "n")
+		case "retx":
+			sc.MaxRetries = rapid.IntRange(0, 2).Draw(t, "retries")
+		case "reconn":
+			sc.N = rapid.IntRange(1, 2).Draw(t, "n")
+		case "monclose":
+			sc.N = rapid.IntRange(8, 16).Draw(t, "n")
 		case "keepalive":
 			sc.MaxRetries, sc.NewConnFirst = rapid.IntRange(2, 3).Draw(t, "retries"), rapid.Bool().Draw(t, "newconn")
 			sc.Neighbour = rapid.Bool().Draw(t, "neighbour")
@@ -423,4 +617,4 @@ func Engine(r *evid.Run, modes []string, quick, thorough int) evid.Engine {
 }
 
 // Rule describes the engine for the evidence files.
-const Rule = "udpserver: the loopback udp/server behind a wildcard-bound listener with a hand-driven tick (real sockets, real time; a failure counts only if it reproduces three times in a row): twolocal - one remote socket talking to two local addresses is two logical connections (equal message IDs reach the handler twice, each answered from the address it was sent to); closed - a handler closes its own connection and the peer sends again before any tick: every connection ever reported runs its on-close callback exactly once and completes its done signal by the time Serve returned; keepalive - WithKeepAlive with an optional server-initiated NewConn first: a silent peer is closed only after pings went out to it in at least maxRetries ticks, and a second peer of the same server that answers every ping is not closed; idle - WithInactivityMonitor whose callback closes: a peer that speaks again after more than one period of silence and before any tick is answered once, handled once, by a newly announced connection"
+const Rule = "udpserver: the loopback udp/server behind a wildcard-bound listener with a hand-driven tick (real sockets, real time; a failure counts only if it reproduces three times in a row): twolocal - one remote socket talking to two local addresses is two logical connections (equal message IDs reach the handler twice, each answered from the address it was sent to); closed - a handler closes its own connection and the peer sends again before any tick: every connection ever reported runs its on-close callback exactly once and completes its done signal by the time Serve returned; keepalive - WithKeepAlive with an optional server-initiated NewConn first: a silent peer is closed only after pings went out to it in at least maxRetries ticks, and a second peer of the same server that answers every ping is not closed; idle - WithInactivityMonitor whose callback closes: a peer that speaks again after more than one period of silence and before any tick is answered once, handled once, by a newly announced connection; retx - a server configured with MAX_RETRANSMIT 0-2: an unacknowledged request issued on one of its connections is on the wire exactly 1+MAX_RETRANSMIT times, spaced by ACK_TIMEOUT; alias - wildcard listener, Server.NewConn between a confirmable request and its retransmission (handled once, same reply), ; monclose - a request monitor that closes the datagram's connection: the datagram is handled at most once; reconn - the server application talks first: NewConn, exchange, close, NewConn again, exchange, each answered at once by the peer (succeeds after one transmission)"
